@@ -478,31 +478,57 @@ def sig_from_parser(parser):
 
 _CORE = {}
 
+# sections of a sig and the namespace of names each belongs to: constants, string constants, aliases, structs and messages share one
+# namespace (message ids and hashes are named after their message), module ids and host ids have one each
+SIG_TABLE_OF = {"constants": "constants", "strings": "strings", "aliases": "aliases", "defs": "defs", "mt": "mt", "hash": "mt", "mid": "mid", "hid": "hid"}
+
+
+class CoreNames(frozenset):
+    """Every name defined by the shipped core closure (a frozenset, as before) that also knows WHICH table of a sig each name
+    belongs to: ``by_table`` = {"constants","strings","aliases","defs","mt","mid","hid": frozenset}.  Names are unique per
+    namespace only: a user module id may be called like a core message, a user message like a core module id."""
+    by_table: dict = {}
+
+    def has(self, table, name):
+        return name in self.by_table.get(SIG_TABLE_OF.get(table, table), ())
+
+
+def _in_skip(skip, table, name):
+    """Is ``name`` of sig table ``table`` among the names to leave out?  ``skip`` is a CoreNames (namespace-aware) or a plain set."""
+    if isinstance(skip, CoreNames):
+        return skip.has(table, name)
+    return name in skip
+
 
 def core_names():
-    """Every name defined by the shipped core YAML closure (parsed on its own, once per process)."""
+    """Every name defined by the shipped core YAML closure (parsed on its own, once per process): a CoreNames."""
     if "names" not in _CORE:
         p = parse_model(os.path.join(REPO_SRC, "pyrtma", "core_defs", "core_defs.yaml"), import_coredefs=False)
         names = set()
         for t in (p.constants, p.string_constants, p.aliases, p.host_ids, p.module_ids, p.message_ids, p.struct_defs, p.message_defs):
             names |= set(t.keys())
-        _CORE["names"] = names
+        cn = CoreNames(names)
+        cn.by_table = {"constants": frozenset(p.constants), "strings": frozenset(p.string_constants), "aliases": frozenset(p.aliases),
+                       "defs": frozenset(p.struct_defs) | frozenset(p.message_defs), "mt": frozenset(p.message_ids) | frozenset(p.message_defs),
+                       "mid": frozenset(p.module_ids), "hid": frozenset(p.host_ids)}
+        _CORE["names"] = cn
         _CORE["types"] = set(p.aliases) | set(p.struct_defs) | set(p.message_defs)
     return _CORE["names"]
 
 
 def references_core(ref_sig, core_imported=True):
-    """True when a non-core alias or definition of the sig names a core type (its C header then needs RTMA.h)."""
+    """True when a non-core alias or definition of the sig names a core type (its C header then needs RTMA.h).  A user definition
+    that merely shares its NAME with a core definition of another namespace (a message called like a core module id) is a user
+    definition like any other."""
     if not core_imported:
         return False
-    core_names()
+    cn = core_names()
     ct = _CORE["types"]
-    cn = _CORE["names"]
     for n, a in ref_sig["aliases"].items():
-        if n not in cn and a.get("tn") in ct:
+        if not cn.has("aliases", n) and a.get("tn") in ct:
             return True
     for n, d in ref_sig["defs"].items():
-        if n in cn:
+        if cn.has("defs", n):
             continue
         for f in d["fields"]:
             if f.get("tn") in ct:
@@ -847,28 +873,28 @@ def c_probe_source(header_name, ref, skip=frozenset()):
             w(f'  printf("%s\\"{kind}:{n}\\": ", sep); PNUM({pre}{n}); sep = ", ";\n')
 
     for n in ref["constants"]:
-        if n not in skip:
+        if not _in_skip(skip, "constants", n):
             macro("constants", "", n)
     for n in ref["mt"]:
-        if n not in skip:
+        if not _in_skip(skip, "mt", n):
             macro("mt", "MT_", n)
     for n in ref["mid"]:
-        if n not in skip:
+        if not _in_skip(skip, "mid", n):
             macro("mid", "MID_", n)
     for n in ref["hid"]:
-        if n not in skip:
+        if not _in_skip(skip, "hid", n):
             macro("hid", "HID_", n)
     for n in ref["hash"]:
-        if n not in skip:
+        if not _in_skip(skip, "hash", n):
             macro("hash", "HASH_", n)
     w('  printf("}, \\"strings\\": {");\n  sep = "";\n')
     for n in ref["strings"]:
-        if n not in skip and _c_ident(n):
+        if not _in_skip(skip, "strings", n) and _c_ident(n):
             w(f'  printf("%s\\"{n}\\": ", sep); p_s({n}); sep = ", ";\n')
     w('  printf("}, \\"defs\\": {");\n')
     first = True
     for n, d in ref["defs"].items():
-        if n in skip or not d["fields"]:
+        if _in_skip(skip, "defs", n) or not d["fields"]:
             continue
         T = ("MDF_" if d["cat"] == "message" else "") + n
         w(f'  printf("{"" if first else ", "}\\"{n}\\": {{\\"size\\": %zu, \\"align\\": %zu, \\"fields\\": [", sizeof({T}), _Alignof({T}));\n  sep = "";\n')
@@ -958,7 +984,7 @@ def c_probe(header, ref, skip=frozenset()):
                           "error": None, "fields": fields}
     # signals have no C type; they exist through their MT_ / HASH_ macros
     for n, rd in ref["defs"].items():
-        if n not in skip and not rd["fields"] and rd["cat"] == "message" and n in sig["mt"]:
+        if not _in_skip(skip, "defs", n) and not rd["fields"] and rd["cat"] == "message" and n in sig["mt"]:
             sig["defs"][n] = {"cat": "message", "id": sig["mt"][n], "size": 0, "align": None, "hash": sig["hash"].get(n), "error": None, "fields": []}
     return sig
 
@@ -1636,7 +1662,8 @@ def _diff_fields(ref, oth, rf, of, lang, where, out, depth=0):
 
 def diff_sigs(ref, oth, names=None, tables=("constants", "strings", "mt", "mid", "hid", "hash"), skip=frozenset()):
     """Differences of `oth` against `ref` on everything `oth`'s language carries.
-    names: restrict to these definition names; skip: names not expected in oth (core names for C).
+    names: restrict to these definition names; skip: names not expected in oth (core names for C; a CoreNames is applied per
+    namespace - a user module id named like a core message is NOT skipped -, a plain set to every table).
     -> [(aspect, where, text)]"""
     lang = oth["lang"]
     out = []
@@ -1645,7 +1672,7 @@ def diff_sigs(ref, oth, names=None, tables=("constants", "strings", "mt", "mid",
         return [("load/" + e["type"], "", e.get("msg", ""))]
     for tb in tables:
         for n, v in ref[tb].items():
-            if n in skip:
+            if _in_skip(skip, tb, n):
                 continue
             if n not in oth[tb]:
                 out.append((f"{tb}-missing", n, f"{lang} output has no {tb} entry {n} (reference value {v!r})"))
@@ -1655,7 +1682,7 @@ def diff_sigs(ref, oth, names=None, tables=("constants", "strings", "mt", "mid",
                 # Python and C distinguish 2 from 2.0 (annotation / type of the macro's value)
                 out.append((f"{tb}-type", n, f"reference {v!r} ({type(v).__name__}), {lang} {oth[tb][n]!r} ({type(oth[tb][n]).__name__})"))
     for n, d in ref["defs"].items():
-        if n in skip or (names is not None and n not in names):
+        if _in_skip(skip, "defs", n) or (names is not None and n not in names):
             continue
         o = oth["defs"].get(n)
         if o is None:
@@ -1755,10 +1782,10 @@ def merge_ref(expect, psig, core):
     ref["lang"] = "reference"
     for tb in ("constants", "strings", "mt", "mid", "hid", "aliases"):
         for n, v in psig[tb].items():
-            if n in core and n not in ref[tb]:
+            if _in_skip(core, tb, n) and n not in ref[tb]:
                 ref[tb][n] = v
     for n, d in psig["defs"].items():
-        if n in core and n not in ref["defs"]:
+        if _in_skip(core, "defs", n) and n not in ref["defs"]:
             ref["defs"][n] = d
     for n, d in ref["defs"].items():
         if d["cat"] == "message" and n in psig["hash"]:
@@ -1846,7 +1873,7 @@ class Examiner:
             mo = dict(model_opts or {"validate_alignment": False, "auto_pad": False, "import_coredefs": "--no_core_import" not in cli_flags})
             p = parse_model(root, **mo)
             core_on = mo.get("import_coredefs", True)
-            ex.core = frozenset(core_names()) if core_on else frozenset()
+            ex.core = core_names() if core_on else frozenset()
             ex.psig = sig_from_parser(p)
             ex.ref = dict(ex.psig, lang="reference")
             self.extract(ex, {k: os.path.join(out, "gdefs" + OUT_EXT[k]) for k in ("py", "h", "js", "m")}, core_on)
@@ -1868,7 +1895,7 @@ class Examiner:
                 ex.hung = True
                 return ex
             core_on = opts.get("import_coredefs", True)
-            ex.core = frozenset(core_names()) if core_on else frozenset()
+            ex.core = core_names() if core_on else frozenset()
             ex.psig = sig_from_parser(c.parser)
             ex.ref = merge_ref(expect, ex.psig, ex.core) if expect is not None else dict(ex.psig, lang="reference")
             self.extract(ex, c.paths, core_on, langs, fresh_py, c_mode)
